@@ -82,11 +82,23 @@ def rule_failure_atomicity(ctx):
     fn = tu.func('reb_simulation_remove_particle')
     items = cfront.body(fn).get('inner', [])
     chk_line = None
+    from . import pairdomain as _D
+    idx_param = [p_['name'] for p_ in cfront.params(fn) if 'int' in qtype(p_) and '*' not in qtype(p_)][0]
     for st in items:
-        if st.get('kind') == 'IfStmt':
-            c = render(st['inner'][0]).replace(' ', '')
-            if 'index>=' in c and 'index<0' in c:
-                chk_line = line_of(st)
+        if st.get('kind') != 'IfStmt':
+            continue
+        rets = [render(x['inner'][0]) for x in walk(st['inner'][1]) if x.get('kind') == 'ReturnStmt' and x.get('inner')]
+        if rets != ['0'] or not any(x.get('kind') == 'CallExpr' and callee_name(x) == 'reb_simulation_error' for x in walk(st['inner'][1])):
+            continue
+        if not any(x.get('kind') == 'DeclRefExpr' and x['referencedDecl'].get('name') == idx_param for x in walk(st['inner'][0])):
+            continue
+        # the refusal must hold exactly for the indices outside 0 .. N-1 (decided on the boundary values, whatever its spelling)
+        try:
+            val = {i_: bool(_D.ieval(st['inner'][0], {idx_param: i_, 'r.N': 3}, {})) for i_ in (-1, 0, 2, 3)}
+        except _D.Unknown:
+            continue
+        if val == {-1: True, 0: False, 2: False, 3: True}:
+            chk_line = line_of(st)
     n += 1
     if chk_line is None:
         ctx.report('R14.1', 'remove:rangecheck', 'src/particle.c reb_simulation_remove_particle', 'the index range check (index >= N || index < 0) is missing')
@@ -144,34 +156,50 @@ def rule_lookup(ctx):
     tu = cfront.load_tu('particle.c')
     n = 0
     fn = tu.func('reb_search_lookup_table')
-    # the pointer &r->particles[lookup[..].index] is formed only under index < N
-    from .c08 import ancestors_conditions
-    conds = ancestors_conditions(fn)
+    # the pointer &r->particles[E] is formed only on paths where E < N holds (enclosing ifs and preceding early exits)
+    from . import pathcond
+    conds = pathcond.conditions(fn)
     found = False
     for x in walk(cfront.body(fn)):
         if x.get('kind') == 'ReturnStmt' and x.get('inner') and 'r.particles[' in render(x['inner'][0]):
             found = True
             n += 1
-            cs = [c.replace(' ', '') for c in conds.get(id(x), [])]
-            if not any(re.match(r'^\(lookup\[middle\]\.index<(\(int\))?r\.N\)$', c) for c in cs):
+            m_ = re.search(r'r\.particles\[(.*)\]', render(x['inner'][0]).replace(' ', ''))
+            E = m_.group(1) if m_ else '?'
+            cs = [c.replace('(int)', '').replace('(', '').replace(')', '') for c in conds.get(id(x), [])]
+            want = E.replace('(', '').replace(')', '')
+            if not any(c == '%s<r.N' % want or c == 'r.N>%s' % want for c in cs):
                 ctx.report('R14.3', 'lookup:bound', 'src/particle.c:%s reb_search_lookup_table' % line_of(x),
                            'a particle pointer is formed from a lookup entry under %s, not under index < N: stale entries beyond N are handed out' % cs)
-    anchor(found, 'reb_search_lookup_table returns &r->particles[lookup[middle].index] under a bound test')
-    for x in walk(cfront.body(fn)):
-        if x.get('kind') == 'ReturnStmt' and x.get('inner') and 'r.particles[' in render(x['inner'][0]):
-            pass
+    anchor(found, 'reb_search_lookup_table returns &r->particles[<entry>.index] under a bound test')
     fn = tu.func('reb_simulation_particle_by_hash')
     n += 1
-    conds = [render(x['inner'][0]).replace(' ', '') for x in walk(cfront.body(fn)) if x.get('kind') == 'IfStmt']
-    if '(p.hash!=hash)' not in conds:
+    hparam = [p_['name'] for p_ in cfront.params(fn) if 'uint32_t' in qtype(p_) or 'unsigned' in qtype(p_)]
+    anchor(hparam, 'hash parameter of reb_simulation_particle_by_hash')
+    stale = miss = False
+    for x in walk(cfront.body(fn)):
+        if x.get('kind') == 'BinaryOperator' and x.get('opcode') in ('!=', '=='):
+            a_, b_ = strip(x['inner'][0], casts=True), strip(x['inner'][1], casts=True)
+            for u, v in ((a_, b_), (b_, a_)):
+                if u.get('kind') == 'MemberExpr' and u.get('name') == 'hash' and v.get('kind') == 'DeclRefExpr' and v['referencedDecl'].get('name') == hparam[0]:
+                    stale = True
+                if '*' in qtype(u) and u.get('kind') == 'DeclRefExpr' and render(v).replace(' ', '') in ('0', '((void*)0)', 'NULL'):
+                    miss = True
+        if x.get('kind') == 'UnaryOperator' and x.get('opcode') == '!' and '*' in qtype(strip(x['inner'][0], casts=True)):
+            miss = True
+    if not stale:
         ctx.report('R14.3', 'lookup:staleness', 'src/particle.c reb_simulation_particle_by_hash', 'the particle found through the lookup table is not re-checked for carrying the requested hash (stale table)')
-    if '(p==0)' not in conds and '(p==((void*)0))' not in conds:
+    if not miss:
         ctx.report('R14.3', 'lookup:miss', 'src/particle.c reb_simulation_particle_by_hash', 'a miss does not trigger a rebuild of the lookup table')
+    if not any(x.get('kind') == 'CallExpr' and callee_name(x) == 'reb_update_particle_lookup_table' for x in walk(cfront.body(fn))):
+        ctx.report('R14.3', 'lookup:rebuild', 'src/particle.c reb_simulation_particle_by_hash', 'the lookup table is never rebuilt')
     fn = tu.func('reb_simulation_remove_particle_by_hash')
     n += 1
-    first = cfront.body(fn)['inner']
-    txt = ' '.join(render(x['inner'][0]) for x in walk(cfront.body(fn)) if x.get('kind') == 'IfStmt')
-    if 'p==' not in txt.replace(' ', ''):
+    rej = False
+    for st in walk(cfront.body(fn)):
+        if st.get('kind') == 'IfStmt' and any(x.get('kind') == 'ReturnStmt' for x in walk(st['inner'][1])) and any(x.get('kind') == 'CallExpr' and callee_name(x) == 'reb_simulation_error' for x in walk(st['inner'][1])):
+            rej = True
+    if not rej:
         ctx.report('R14.3', 'remove_by_hash:miss', 'src/particle.c reb_simulation_remove_particle_by_hash', 'an unknown hash is not rejected')
     ctx.covered('R14.3', 'hash lookup: bound test before forming the pointer, staleness re-check, rebuild on miss, unknown hash rejected', n, floor=3)
 
